@@ -467,17 +467,20 @@ def run(ctx):
                 return True         # the validator accepts
             return None
 
-        def ev_of(c):
-            if isinstance(c.func, ast.Attribute) and isinstance(c.func.value, ast.Name) and c.func.value.id == "self" \
-                    and c.func.attr in toucher_names:
-                return "touch"
-            return "miss" if call_name(c) == "CacheMiss" else None
         # the looked-up validation function is whatever local is bound from the directive table
         env0 = {}
         for n_ in ast.walk(body_loops_[0]):
             if isinstance(n_, ast.Assign) and len(n_.targets) == 1 and isinstance(n_.targets[0], ast.Name) \
                     and isinstance(n_.value, ast.Subscript) and "validate" in ast.unparse(n_.value):
                 env0["@fn:" + n_.targets[0].id] = True
+
+        def ev_of(c):
+            if isinstance(c.func, ast.Attribute) and isinstance(c.func.value, ast.Name) and c.func.value.id == "self" \
+                    and c.func.attr in toucher_names:
+                return "touch"
+            if isinstance(c.func, ast.Name) and ("@fn:" + c.func.id) in env0:
+                return "validate"
+            return "miss" if call_name(c) == "CacheMiss" else None
         return [ev_ for _, ev_ in _sp(body_loops_[0].body, env0, oracle, ev_of)]
     if len(body_loops_) == 1 and toucher_names:
         plain, validated = hit_events(False), hit_events(True)
@@ -486,6 +489,17 @@ def run(ctx):
                    "a present entry that is served (no validation requested, or validation passed) has its time stamp refreshed on every path",
                    gm.loc(), derived=f"plain hit: {sorted({'+'.join(e_) or 'nothing' for e_ in plain})}; validated hit: "
                                      f"{sorted({'+'.join(e_) or 'nothing' for e_ in validated})}")
+        # ... and the validator judges the file as it was left by its last use: a touch ahead of the validation call resets the very
+        # time stamp an age-based validator reads, so a stale entry can never be rejected
+        seen_val = [e_ for e_ in validated if "validate" in e_]
+        if seen_val:
+            oko = all(e_.index("validate") < e_.index("touch") for e_ in seen_val if "touch" in e_)
+            ctx.expect(oko, "R18.4", "get_cache_misses[validate before touch]",
+                       "the validation function is called before the entry's time stamp is refreshed", gm.loc(),
+                       derived=str(sorted({'+'.join(e_) for e_ in seen_val})), required="validate ... touch")
+        else:
+            ctx.unsure("R18.4", "get_cache_misses[validate before touch]", "the call of the validation function was not identified on the "
+                       "validated-hit paths", gm.loc())
     else:
         ctx.unsure("R18.4", "get_cache_misses[every hit is touched]", "per-URI loop or touching method not identified", gm.loc())
     ev_calls = [c for c in calls(gi.node) if call_name(c) == "self._cache_eviction"]
